@@ -339,10 +339,12 @@ fn big_inputs() -> Vec<(Format, String, Vec<u8>)> {
 // ---------------------------------------------------------------------------------------------
 
 /// outcome of one variant reduced to what C12 compares: records with their header line numbers
-fn c12_outcome(data: &Rc<Vec<u8>>, env: &Env) -> (Vec<(RecObs, Option<u64>)>, Vec<String>) {
+fn c12_outcome(data: &Rc<Vec<u8>>, env: &Env) -> (Vec<(RecObs, Option<u64>)>, Vec<String>, Vec<usize>) {
     let run = run_next(data, env, Driver::Next);
     let mut recs = vec![];
     let mut other = vec![];
+    // number of sequence lines of every record as yielded, empty ones included
+    let mut raw_counts = vec![];
     // the same file through record sets (plain and exact(2)): the records must be the same ones
     for drv in [Drv::Sets, Drv::Exact(2)] {
         let f = run_flat(data, env, drv);
@@ -359,6 +361,7 @@ fn c12_outcome(data: &Rc<Vec<u8>>, env: &Env) -> (Vec<(RecObs, Option<u64>)>, Ve
         match it {
             Item::Rec(r) => {
                 let mut r = r.clone();
+                raw_counts.push(r.lines.len());
                 // empty sequence lines are "ignored" by the documented rules
                 r.lines.retain(|l| !l.is_empty());
                 recs.push((r, pos.map(|p| p.0)))
@@ -367,7 +370,7 @@ fn c12_outcome(data: &Rc<Vec<u8>>, env: &Env) -> (Vec<(RecObs, Option<u64>)>, Ve
             x => other.push(x.show()),
         }
     }
-    (recs, other)
+    (recs, other, raw_counts)
 }
 
 pub fn c12(tier: Tier) -> i32 {
@@ -427,6 +430,9 @@ pub fn c12(tier: Tier) -> i32 {
             }
             let first = Rc::new(variants[0].1.clone());
             let reference = c12_outcome(&first, &Env::plain(format, 65536));
+            // LF version without the final terminator: the line counts (empty lines included) of the
+            // variants without final terminator are compared with this one
+            let reference_nofinal = c12_outcome(&Rc::new(variants[1].1.clone()), &Env::plain(format, 65536));
             let rs = match format {
                 Format::Fasta => refmodel::fasta(&first),
                 Format::Fastq => refmodel::fastq(&first),
@@ -452,6 +458,8 @@ pub fn c12(tier: Tier) -> i32 {
                             "line-number"
                         };
                         bad = Some((what.into(), format!("records {:?} vs LF version {:?}", out.0.iter().map(|r| (r.0.show(), r.1)).collect::<Vec<_>>(), reference.0.iter().map(|r| (r.0.show(), r.1)).collect::<Vec<_>>())));
+                    } else if out.2 != if vname.contains("no final terminator") { reference_nofinal.2.clone() } else { reference.2.clone() } {
+                        bad = Some(("line-count".into(), format!("numbers of sequence lines per record (empty ones included) {:?}, LF version with the same final terminator {:?}", out.2, if vname.contains("no final terminator") { &reference_nofinal.2 } else { &reference.2 })));
                     } else if out.0.iter().any(|(r, _)| {
                         r.head.contains(&b'\r') || r.lines.iter().any(|x| x.contains(&b'\r')) || r.qual.as_ref().map_or(false, |q| q.contains(&b'\r'))
                     }) {
